@@ -191,6 +191,10 @@ def op_canonicalize(s, a):
         s.info.pop("cur_orthog", None)
     note_consume(s)
     where = (i % L) if not pair else tuple(sorted((i % L, j % L)))
+    rec0 = record(s.info)
+    if rec0 is not None and rec0[0] == rec0[1] and j % 3 == 0:
+        # documented spelling of a record: "a single site" - as a python or a numpy integer (what numpy indexing hands out)
+        s.info["cur_orthog"] = [int(rec0[0]), np.int64(rec0[0])][(j // 3) % 2]
     s.psi.canonicalize_(where, info=s.info)
     changed(s)
     rec = record(s.info)
@@ -300,7 +304,16 @@ def op_compress_site(s, a):
     if drop:
         s.info.pop("cur_orthog", None)
     note_consume(s)
-    s.psi.compress_site(i % L, info=s.info, cutoff=0.0)
+    kw = {}
+    opt = (i // 7) % 6  # documented options: canonize=False keeps the centre where it is, absorb is forwarded to the splits
+    if opt == 1:
+        kw["canonize"] = False
+    elif opt == 2:
+        kw["absorb"] = "both"
+    elif opt == 3:
+        kw["absorb"] = "left"
+    s.detail = {"canonize": kw.get("canonize", True), "absorb": str(kw.get("absorb"))}
+    s.psi.compress_site(i % L, info=s.info, cutoff=0.0, **kw)
     changed(s)
     require_state(s, d0, "compress_site")
 
@@ -370,7 +383,14 @@ def op_nonlocal(s, a):
     G = gate_matrix(seed, len(where), s.d, "gauss", s.dtype)
     method = ["direct", "dm", "zipup", "direct"][method_i % 4] if len(where) > 1 else "direct"
     note_consume(s)
-    s.psi.gate_nonlocal_(G, where, info=s.info, method=method, transpose=transpose, cutoff=0.0, max_bond=None)
+    kw = {}
+    eq = (seed // 3) % 5  # compression options forwarded by gate_nonlocal: the record must stay sound under them too
+    if eq == 1 and len(where) > 1:
+        kw["equalize_norms"] = True
+    elif eq == 2 and len(where) > 1:
+        kw["equalize_norms"] = 1.0
+    s.detail = {"method": method, "equalize": repr(kw.get("equalize_norms"))}
+    s.psi.gate_nonlocal_(G, where, info=s.info, method=method, transpose=transpose, cutoff=0.0, max_bond=None, **kw)
     changed(s)
     Gm = G.T if transpose else G
     require_state(s, embed(Gm, dims(s), where) @ d0, "nonlocal", method=method, transpose=bool(transpose))
